@@ -4,6 +4,7 @@ import os
 HARNESS = {
     "h_posit": dict(src="h_posit.cpp"),
     "h_quire": dict(src="h_quire.cpp"),
+    "h_pconv": dict(src="h_pconv.cpp"),
 }
 
 POSIT_SMALL = [(n, es) for n in range(2, 9) for es in range(0, 6) if es <= n - 2 or (n, es) in ((2, 0),)]
@@ -131,6 +132,20 @@ PROPS = {
         level_text="comparison operators of the model vs. the real order of the decoded values; ++/-- vs. the adjacent encoding; all ordered pairs of small configurations",
         level_note="trusted: Lean kernel, hand-written model; families other than posit are added as their models land",
         explanation="posit == != < <= > >= ++ -- on all ordered pairs of every configuration <= 8 bits and structured pairs above",
+        assumptions=[],
+    ),
+    "C15": dict(
+        harness=["h_pconv"],
+        streams=lambda tier, seed, exes: (
+            [dict(exe=exes["h_pconv"], args=["exh", "400"], label="posit->posit, sources <=12 bits exhaustive, larger sampled")] +
+            [dict(exe=exes["h_pconv"], args=["rnd", "3000" if tier == "quick" else "60000"], env={"VERIF_SEED": str(seed * 10 + k)},
+                  label=f"posit->posit structured shard {k}") for k in range(1 if tier == "quick" else 6)]),
+        proof_modules=["UVerifProofs.Props.C15"],
+        level="proof",
+        level_text="conversion between configurations is the composition decode (exact) ; convert_ (one rounding): Lean model and the target's rounding relation; "
+                   "9x9 matrix of posit configurations, every source encoding <= 12 bits",
+        level_note="trusted: Lean kernel, hand-written model; other families are added as their models land",
+        explanation="posit<n1,es1> -> posit<n2,es2> converting constructor and back; identity on representable values; widening then narrowing",
         assumptions=[],
     ),
 }
